@@ -17,6 +17,7 @@ import (
 	authvesting "github.com/cosmos/cosmos-sdk/x/auth/vesting/types"
 	"github.com/cosmos/cosmos-sdk/x/authz"
 	banktypes "github.com/cosmos/cosmos-sdk/x/bank/types"
+	"github.com/cosmos/cosmos-sdk/x/staking"
 	stakingtypes "github.com/cosmos/cosmos-sdk/x/staking/types"
 	"pgregory.net/rapid"
 )
@@ -258,6 +259,27 @@ func (v *VestWorld) StateDigest() string {
 // Delegate delegates amt uc4e from addr to the genesis validator with a real MsgDelegate.
 func (v *VestWorld) Delegate(addr sdk.AccAddress, amt sdk.Int) MsgResult {
 	return v.Run(&stakingtypes.MsgDelegate{DelegatorAddress: addr.String(), ValidatorAddress: v.W.ValAddr.String(), Amount: sdk.NewCoin(Denom, amt)})
+}
+
+// CompleteUnbondings moves the clock past the unbonding period and runs the staking module's
+// EndBlocker, which pays matured unbonding delegations back to their delegators.
+func (v *VestWorld) CompleteUnbondings() {
+	v.Advance(22 * dayNs)
+	staking.EndBlocker(v.Ctx.WithEventManager(sdk.NewEventManager()), v.App.StakingKeeper)
+}
+
+// SlashValidator slashes the genesis validator by the given fraction (as a double-sign or downtime
+// evidence does): every delegation loses that part of its tokens.
+func (v *VestWorld) SlashValidator(fraction sdk.Dec) {
+	val, found := v.App.StakingKeeper.GetValidator(v.Ctx, v.W.ValAddr)
+	if !found || val.IsUnbonded() {
+		return // x/slashing never slashes an unbonded validator
+	}
+	cons, err := val.GetConsAddr()
+	if err != nil {
+		return
+	}
+	v.App.StakingKeeper.Slash(v.Ctx.WithEventManager(sdk.NewEventManager()), cons, v.Ctx.BlockHeight(), val.ConsensusPower(v.App.StakingKeeper.PowerReduction(v.Ctx)), fraction)
 }
 
 func (v *VestWorld) Undelegate(addr sdk.AccAddress, amt sdk.Int) MsgResult {
